@@ -495,6 +495,23 @@ def _gen_tx(tx: ast.Module) -> Dict[str, object]:
     return {"max_retries": max_retries, "table": table}
 
 
+IN_EFFECT_BODY = [
+    "try:\n    current = self.refresh()\nexcept Exception:\n    return True",
+    "return current is None or current.table_uuid == metadata.table_uuid",
+]
+
+
+def _pin_in_effect(mm: ast.Module) -> None:
+    """MetadataManager._is_table_in_effect(metadata): the table that refresh() resolves NOW has the uuid of `metadata`
+    (nothing resolvable, or a resolution that fails, counts as 'in effect': the file is kept).  Model/Create.v `in_effect`."""
+    fn = find_function(mm, "_is_table_in_effect", "MetadataManager")
+    if [a.arg for a in fn.args.args] != ["self", "metadata"]:
+        raise Unsupported("_is_table_in_effect: signature changed")
+    body = [_u(x) for x in strip_docstring(fn.body)]
+    if body != IN_EFFECT_BODY:
+        raise Unsupported(f"_is_table_in_effect: body changed: {body}")
+
+
 def _gen_create(mm: ast.Module) -> Dict[str, object]:
     """initialize_table: skeleton per storage configuration + what a failing pointer creation does."""
     fn = find_function(mm, "initialize_table", "MetadataManager")
@@ -525,7 +542,7 @@ def _gen_create(mm: ast.Module) -> Dict[str, object]:
         raise Unsupported("initialize_table: the pointer creation (if self.storage.supports_cas ...) does not follow the v0 write")
     known = {"self._current_version_info", "self._new_metadata_filename", "self._write_metadata_file", "self.storage.write_file_cas",
              "self.storage.write_file", "self._discard_unpublished_metadata", "int", "datetime.now", "(datetime.now).timestamp",
-             "TableExistsError", "metadata_file.encode"}
+             "TableExistsError", "metadata_file.encode", "self._is_table_in_effect"}
     for s in sec:
         for c in ast.walk(s):
             if isinstance(c, ast.Call) and _cn(c) not in known and not _cn(c).startswith("logger."):
@@ -561,8 +578,18 @@ def _gen_create(mm: ast.Module) -> Dict[str, object]:
                 if len(raised) != 1 or h.body[-1] is not raised[0]:
                     raise Unsupported("initialize_table: pointer-creation handler does not end in one raise")
                 if raised[0].exc is not None:
-                    if _cn(raised[0].exc) != "TableExistsError" or len(h.body) != 1:
+                    if _cn(raised[0].exc) != "TableExistsError" or len(h.body) > 2:
                         raise Unsupported(f"initialize_table: handler raises {_u(raised[0].exc)[:60]}")
+                    if len(h.body) == 2:
+                        # `if not self._is_table_in_effect(metadata): self._discard_unpublished_metadata(metadata_path)` before the
+                        # raise: the loser's v0 is removed when the table now in effect is verifiably another one
+                        g0 = h.body[0]
+                        if not (isinstance(g0, ast.If) and not g0.orelse and _u(g0.test) == "not self._is_table_in_effect(metadata)"
+                                and [_u(y) for y in g0.body] == ["self._discard_unpublished_metadata(metadata_path)"]):
+                            raise Unsupported(f"initialize_table: statement before the TableExistsError raise: {_u(g0)[:80]}")
+                        _pin_in_effect(mm)
+                        fails[(cas, atomic, err)] = "CFTableExistsDiscardForeign"
+                        continue
                     fails[(cas, atomic, err)] = "CFTableExists"
                     continue
                 disc = False
